@@ -243,27 +243,28 @@ Proof.
     eapply Forall_impl; [|eassumption]. simpl. intros b Hb Hs. apply justified_mark_faulty. auto.
 Qed.
 
-Definition or_rootscan (b : bool) (g : glob) : glob :=
-  mkGlob (g_errored g) (g_faulty g) (g_seen g) (g_finished g) (g_delivered g) (g_stale g) (g_rootscan g || b).
+Definition or_rootscan (b : bool) (sc : nat -> bool) (g : glob) : glob :=
+  mkGlob (g_errored g) (g_faulty g) (g_seen g) (g_finished g) (g_delivered g) (g_stale g) (g_rootscan g || b) sc.
 
 Lemma scan_err_eq : forall e c g,
   scan_err e c g = or_rootscan (diag_is_err e && match tl (c_wraps c) with [] => true | _ => false end)
+                               (if diag_is_err e then upd (g_scanerr g) (c_mod c) true else g_scanerr g)
                                (to_user (tl (c_wraps c)) e g).
 Proof. reflexivity. Qed.
 
-Lemma inv_or_rootscan : forall b g st, Inv g st -> Inv (or_rootscan b g) st.
+Lemma inv_or_rootscan : forall b sc g st, Inv g st -> Inv (or_rootscan b sc g) st.
 Proof.
-  intros b g st I. destruct I. constructor; try assumption.
+  intros b sc g st I. destruct I. constructor; try assumption.
   intros H. destruct (iC0 H) as [E | E]; [left; exact E | right; simpl; rewrite E; reflexivity].
 Qed.
 
-Lemma inv_to_user_root : forall g c r e, Inv g (c :: r) -> Inv (or_rootscan (diag_is_err e) (to_user [] e g)) (c :: r).
+Lemma inv_to_user_root : forall g c r e sc, Inv g (c :: r) -> Inv (or_rootscan (diag_is_err e) sc (to_user [] e g)) (c :: r).
 Proof.
-  intros g c r e I. destruct I. constructor; try assumption.
-  - intros m Hm. change (has_err (or_rootscan (diag_is_err e) (to_user [] e g))) with (diag_is_err e || has_err g).
+  intros g c r e sc I. destruct I. constructor; try assumption.
+  - intros m Hm. change (has_err (or_rootscan (diag_is_err e) sc (to_user [] e g))) with (diag_is_err e || has_err g).
     destruct (diag_is_err e) eqn:De; [reflexivity|]. simpl. apply (iB0 m).
     simpl in Hm. rewrite De in Hm. exact Hm.
-  - change (has_err (or_rootscan (diag_is_err e) (to_user [] e g))) with (diag_is_err e || has_err g).
+  - change (has_err (or_rootscan (diag_is_err e) sc (to_user [] e g))) with (diag_is_err e || has_err g).
     destruct (diag_is_err e) eqn:De; simpl.
     + intros _. right. apply orb_true_r.
     + rewrite De, orb_false_r. exact iC0.
@@ -311,7 +312,7 @@ Proof. intros c p r H. exact H. Qed.
 Lemma inprogress_incl_tail : forall c r m, In m (inprogress r) -> In m (inprogress (c :: r)).
 Proof. intros c r m H. simpl. destruct (c_kind c); [right|]; assumption. Qed.
 
-Lemma step_inv : forall s ev s', Inv (s_g s) (s_stack s) -> step s ev = Some s' -> Inv (s_g s') (s_stack s').
+Lemma step_inv : forall s ev s', Inv (s_g s) (s_stack s) -> step pinned s ev = Some s' -> Inv (s_g s') (s_stack s').
 Proof.
   intros [g st] ev s' I Hs. unfold step in Hs. simpl in *. destruct st as [|c rest]; [discriminate|].
   destruct ev.
@@ -388,7 +389,7 @@ Proof.
     eapply effect_trans; [apply effect_frame; apply (sf_set_cur_cand [])|]. apply err_val_effect.
   - (* EInstBegin *)
     destruct (mem d (g_seen g)) eqn:Hd; [|discriminate]. inversion Hs; subst; clear Hs. simpl.
-    assert (IP : inprogress (new_ctx KInst d [] :: c :: rest) = inprogress (c :: rest)) by reflexivity.
+    assert (IP : inprogress (new_ctx KInst d [] (g_faulty g d) :: c :: rest) = inprogress (c :: rest)) by reflexivity.
     destruct I. constructor; try assumption; try (rewrite IP; assumption).
     + constructor; [|assumption]. intros K. discriminate K.
     + discriminate.
@@ -413,7 +414,7 @@ Proof.
     destruct (c_kind c) eqn:K; [|discriminate]. destruct (c_args c); [|discriminate].
     destruct (c_spec c); [discriminate|]. destruct (mem m (g_seen g)) eqn:Hm; [discriminate|].
     inversion Hs; subst; clear Hs. simpl s_g. simpl s_stack.
-    set (n := new_ctx KMain m (m :: c_wraps c)).
+    set (n := new_ctx KMain m (m :: c_wraps c) false).
     assert (IP : inprogress (n :: c :: rest) = m :: inprogress (c :: rest)) by reflexivity.
     destruct I.
     assert (Hnew : ~ In m (inprogress (c :: rest))).
@@ -421,7 +422,7 @@ Proof.
     assert (Hnf : ~ In m (g_finished g)).
     { intros H. apply iEb0 in H. congruence. }
     assert (Hj : forall x, justified g (c :: rest) x ->
-       justified (mkGlob (g_errored g) (g_faulty g) (m :: g_seen g) (g_finished g) (g_delivered g) (g_stale g) (g_rootscan g))
+       justified (mkGlob (g_errored g) (g_faulty g) (m :: g_seen g) (g_finished g) (g_delivered g) (g_stale g) (g_rootscan g) (g_scanerr g))
                  (n :: c :: rest) x).
     { intros x [H | [H | H]]; unfold justified; simpl g_errored; simpl g_stale; auto.
       right; right. rewrite IP. right. exact H. }
@@ -452,8 +453,9 @@ Proof.
     destruct I. rewrite IP in *.
     assert (ND : ~ In (c_mod c) (inprogress rest)) by (inversion iEc0; assumption).
     assert (NF : ~ In (c_mod c) (g_finished g)) by (apply iEd0; left; reflexivity).
+    rewrite orb_false_r.
     set (g' := mkGlob (g_errored g) (upd (g_faulty g) (c_mod c) (g_errored g (c_mod c))) (g_seen g)
-                      (c_mod c :: g_finished g) (g_delivered g) (g_stale g) (g_rootscan g)).
+                      (c_mod c :: g_finished g) (g_delivered g) (g_stale g) (g_rootscan g) (g_scanerr g)).
     (* no remaining frame belongs to the finished module *)
     assert (Hother : forall pre a post, rest = pre ++ a :: post -> c_mod a <> c_mod c).
     { intros pre a post E Heq.
@@ -504,14 +506,14 @@ Proof.
       apply (Hgen rest []); [reflexivity | exact H2].
 Qed.
 
-Lemma run_inv : forall tr s s', Inv (s_g s) (s_stack s) -> run s tr = Some s' -> Inv (s_g s') (s_stack s').
+Lemma run_inv : forall tr s s', Inv (s_g s) (s_stack s) -> run pinned s tr = Some s' -> Inv (s_g s') (s_stack s').
 Proof.
   induction tr as [|ev r IH]; intros s s' I H; simpl in H.
   - inversion H; subst. exact I.
-  - destruct (step s ev) as [s1|] eqn:E; [|discriminate]. eapply IH; [|exact H]. eapply step_inv; eauto.
+  - destruct (step pinned s ev) as [s1|] eqn:E; [|discriminate]. eapply IH; [|exact H]. eapply step_inv; eauto.
 Qed.
 
-Lemma complete_inv : forall tr s, complete tr s -> Inv (s_g s) [].
+Lemma complete_inv : forall tr s, complete pinned tr s -> Inv (s_g s) [].
 Proof.
   intros tr s [H E]. rewrite <- E. eapply run_inv; [|exact H]. apply inv_init.
 Qed.
@@ -524,7 +526,7 @@ Proof. intros s. unfold any_faulty. apply existsb_exists. Qed.
 (* a module is flagged only if an error-level diagnostic reached the user, unless a resolver or
    typechecker flagged a module that was not being parsed (instantiation of an imported generic) *)
 Lemma faulty_imp_delivered : forall tr s,
-  complete tr s -> no_stale_flag s -> any_faulty s = true -> delivered_error s = true.
+  complete pinned tr s -> no_stale_flag s -> any_faulty s = true -> delivered_error s = true.
 Proof.
   intros tr s C NS AF. pose proof (complete_inv tr s C) as I.
   apply any_faulty_true in AF. destruct AF as [m [_ Fm]].
@@ -536,21 +538,21 @@ Qed.
 
 (* every error-level diagnostic marks the root, unless it came from the root's own scanner *)
 Lemma delivered_imp_root_faulty : forall tr s,
-  complete tr s -> no_root_scanner_error s -> delivered_error s = true -> root_faulty s = true.
+  complete pinned tr s -> no_root_scanner_error s -> delivered_error s = true -> root_faulty s = true.
 Proof.
   intros tr s C NR DE. pose proof (complete_inv tr s C) as I.
   destruct (iDq _ _ I eq_refl) as [E _]. unfold root_faulty. rewrite E.
   destruct (iC _ _ I DE) as [H | H]; [exact H|]. unfold no_root_scanner_error in NR. congruence.
 Qed.
 
-Lemma root_faulty_imp_any : forall tr s, complete tr s -> root_faulty s = true -> any_faulty s = true.
+Lemma root_faulty_imp_any : forall tr s, complete pinned tr s -> root_faulty s = true -> any_faulty s = true.
 Proof.
   intros tr s C RF. pose proof (complete_inv tr s C) as I. apply any_faulty_true. exists 0. split; [|exact RF].
   apply mem_In. apply (iEb _ _ I). apply (iDq _ _ I eq_refl).
 Qed.
 
 Lemma faulty_iff_delivered_partial : forall tr s,
-  complete tr s -> no_stale_flag s -> no_root_scanner_error s ->
+  complete pinned tr s -> no_stale_flag s -> no_root_scanner_error s ->
   (any_faulty s = true <-> delivered_error s = true).
 Proof.
   intros tr s C NS NR. split.
@@ -559,7 +561,7 @@ Proof.
 Qed.
 
 Lemma root_faulty_iff_delivered_partial : forall tr s,
-  complete tr s -> no_stale_flag s -> no_root_scanner_error s ->
+  complete pinned tr s -> no_stale_flag s -> no_root_scanner_error s ->
   (root_faulty s = true <-> delivered_error s = true).
 Proof.
   intros tr s C NS NR. split.
@@ -582,7 +584,7 @@ Qed.
 
 (* ---- observation of a run, for the computed witnesses ----------------------------------------- *)
 Definition observe (tr : list event) : option (bool * bool * bool * bool * bool) :=
-  match run init tr with
+  match run pinned init tr with
   | Some s => Some (match s_stack s with [] => true | _ => false end, any_faulty s, root_faulty s, delivered_error s,
                     g_stale (s_g s) || g_rootscan (s_g s))
   | None => None
@@ -590,17 +592,17 @@ Definition observe (tr : list event) : option (bool * bool * bool * bool * bool)
 
 Lemma observe_complete : forall tr b1 b2 b3 b4,
   observe tr = Some (true, b1, b2, b3, b4) ->
-  exists s, complete tr s /\ any_faulty s = b1 /\ root_faulty s = b2 /\ delivered_error s = b3 /\
+  exists s, complete pinned tr s /\ any_faulty s = b1 /\ root_faulty s = b2 /\ delivered_error s = b3 /\
             g_stale (s_g s) || g_rootscan (s_g s) = b4.
 Proof.
-  intros tr b1 b2 b3 b4 H. unfold observe in H. destruct (run init tr) as [s|] eqn:E; [|discriminate H].
+  intros tr b1 b2 b3 b4 H. unfold observe in H. destruct (run pinned init tr) as [s|] eqn:E; [|discriminate H].
   exists s. inversion H as [[H1 H2 H3 H4 H5]]. repeat split; try reflexivity; try assumption.
   destruct (s_stack s); [reflexivity | discriminate H1].
 Qed.
 
 (* flag without diagnostic: the discarded instantiation of an imported generic *)
 Lemma faulty_iff_delivered_refuted : exists tr s,
-  complete tr s /\ any_faulty s = true /\ root_faulty s = false /\ delivered_error s = false.
+  complete pinned tr s /\ any_faulty s = true /\ root_faulty s = false /\ delivered_error s = false.
 Proof.
   exists trace_discarded_instantiation.
   assert (H : observe trace_discarded_instantiation = Some (true, true, false, false, true)) by (vm_compute; reflexivity).
@@ -609,7 +611,7 @@ Qed.
 
 (* diagnostic without flag: an error of the root's scanner *)
 Lemma delivered_imp_faulty_refuted : exists tr s,
-  complete tr s /\ delivered_error s = true /\ any_faulty s = false.
+  complete pinned tr s /\ delivered_error s = true /\ any_faulty s = false.
 Proof.
   exists trace_root_scanner_error.
   assert (H : observe trace_root_scanner_error = Some (true, false, false, true, true)) by (vm_compute; reflexivity).
@@ -618,7 +620,7 @@ Qed.
 
 (* ---- exit status and artefact ---------------------------------------------------------------- *)
 Lemma exit_nonzero_iff_faulty : forall s cg,
-  exit_status (compile true cg s) <> 0 <-> any_faulty s = true \/ cg = false.
+  exit_status (compile pinned true cg s) <> 0 <-> any_faulty s = true \/ cg = false.
 Proof.
   intros s cg. unfold compile. simpl. destruct (any_faulty s); simpl.
   - split; [auto | intros _; discriminate].
@@ -630,15 +632,15 @@ Proof.
 Qed.
 
 Lemma exit_nonzero_iff_partial : forall tr s cg,
-  complete tr s -> no_stale_flag s -> no_root_scanner_error s ->
-  (exit_status (compile true cg s) <> 0 <-> delivered_error s = true \/ cg = false).
+  complete pinned tr s -> no_stale_flag s -> no_root_scanner_error s ->
+  (exit_status (compile pinned true cg s) <> 0 <-> delivered_error s = true \/ cg = false).
 Proof.
   intros tr s cg C NS NR. rewrite exit_nonzero_iff_faulty. rewrite (faulty_iff_delivered_partial tr s C NS NR). tauto.
 Qed.
 
 Lemma exit_nonzero_iff_refuted :
-  (exists tr s, complete tr s /\ delivered_error s = true /\ exit_status (compile true true s) = 0) /\
-  (exists tr s, complete tr s /\ delivered_error s = false /\ exit_status (compile true true s) <> 0).
+  (exists tr s, complete pinned tr s /\ delivered_error s = true /\ exit_status (compile pinned true true s) = 0) /\
+  (exists tr s, complete pinned tr s /\ delivered_error s = false /\ exit_status (compile pinned true true s) <> 0).
 Proof.
   split.
   - destruct delivered_imp_faulty_refuted as [tr [s [C [D A]]]]. exists tr, s. split; [exact C|]. split; [exact D|].
@@ -648,11 +650,11 @@ Proof.
 Qed.
 
 (* with the default options a flagged module is never compiled *)
-Lemma no_artifact_when_faulty : forall s cg, any_faulty s = true -> artifact (compile true cg s) = false.
+Lemma no_artifact_when_faulty : forall s cg, any_faulty s = true -> artifact (compile pinned true cg s) = false.
 Proof. intros s cg H. unfold compile. rewrite H. reflexivity. Qed.
 
 Lemma no_artifact_on_failure_partial : forall tr s cg,
-  complete tr s -> no_root_scanner_error s -> delivered_error s = true -> artifact (compile true cg s) = false.
+  complete pinned tr s -> no_root_scanner_error s -> delivered_error s = true -> artifact (compile pinned true cg s) = false.
 Proof.
   intros tr s cg C NR DE. apply no_artifact_when_faulty. apply (root_faulty_imp_any tr); [assumption|].
   apply (delivered_imp_root_faulty tr); assumption.
@@ -660,8 +662,8 @@ Qed.
 
 (* --module-linken=false skips the test of the Faulty flag altogether *)
 Lemma no_artifact_on_failure_refuted :
-  (exists tr s, complete tr s /\ delivered_error s = true /\ artifact (compile true true s) = true) /\
-  (forall s, artifact (compile false true s) = true).
+  (exists tr s, complete pinned tr s /\ delivered_error s = true /\ artifact (compile pinned true true s) = true) /\
+  (forall s, artifact (compile pinned false true s) = true).
 Proof.
   split.
   - destruct delivered_imp_faulty_refuted as [tr [s [C [D A]]]]. exists tr, s. split; [exact C|]. split; [exact D|].
@@ -674,9 +676,9 @@ Definition trace_import_type_error : list event :=
   [ EImportBegin 1; EErr OChecker LError 3001%N; ESync; EFinish; EFinish ].
 
 Example partial_nonvacuous : exists s,
-  complete trace_import_type_error s /\ no_stale_flag s /\ no_root_scanner_error s /\
+  complete pinned trace_import_type_error s /\ no_stale_flag s /\ no_root_scanner_error s /\
   any_faulty s = true /\ root_faulty s = true /\ delivered_error s = true /\
-  exit_status (compile true true s) = 1 /\ artifact (compile true true s) = false.
+  exit_status (compile pinned true true s) = 1 /\ artifact (compile pinned true true s) = false.
 Proof.
   assert (H : observe trace_import_type_error = Some (true, true, true, true, false)) by (vm_compute; reflexivity).
   apply observe_complete in H. destruct H as [s [C [A [R [D G]]]]]. exists s.
@@ -686,8 +688,8 @@ Proof.
 Qed.
 
 (* a clean run: nothing delivered, nothing flagged, object produced *)
-Example clean_run : exists s, complete [EImportBegin 1; EFinish; EFinish] s /\
-  any_faulty s = false /\ delivered_error s = false /\ exit_status (compile true true s) = 0.
+Example clean_run : exists s, complete pinned [EImportBegin 1; EFinish; EFinish] s /\
+  any_faulty s = false /\ delivered_error s = false /\ exit_status (compile pinned true true s) = 0.
 Proof.
   assert (H : observe [EImportBegin 1; EFinish; EFinish] = Some (true, false, false, false, false)) by (vm_compute; reflexivity).
   apply observe_complete in H. destruct H as [s [C [A [R [D G]]]]]. exists s.
